@@ -156,7 +156,7 @@ fn receiver_splits(acc: &mut Acc, hdr: &[u8], all_compositions: bool) {
             last = c;
         }
         reads.push(&hdr[last..]);
-        for extra in [&b""[..], &b"\r\nGET"[..]] {
+        for extra in [&b""[..], &b"\r\nGET"[..], &b"GET / HTTP/1.1\r\n"[..], &b"\r\n"[..]] {
             if let Ok((stopped, ok, parses, hlen)) = guard(|| receive(&reads, extra)) {
                 transitions += parses;
                 acc.eval(parses);
